@@ -26,6 +26,9 @@ LEVEL_NOTE = ("Inputs are either on the grid up to a few ulp or at least 1% of d
               "tolerance gives the same expected step count; ambiguous end times are not generated.")
 ASSUMPTIONS = ["an end_time within 1e-9 steps of a grid point counts as that grid point (documented: 'up to floating-point rounding')"]
 
+# two separate TEMPO runs are reproducible only to the truncation tolerance (epsrel 1e-8 here), not bit-wise
+ALIGN_TOL = 1e-6
+
 DTS = [0.1, 0.01, 0.05, 0.2, 0.3, 0.7, 0.001, 0.125, 1.0 / 3.0, np.pi / 10, 0.15, 0.6]
 STARTS = [0.0, 0.1, -0.5, 1.3, 100.0]
 FORMS = ["literal", "product", "off0.01", "off0.4", "off0.99"]
@@ -57,7 +60,7 @@ def _objs(dt):
     import oqupy
     corr = oqupy.PowerLawSD(alpha=0.05, zeta=1.0, cutoff=2.0, temperature=0.2)
     bath = oqupy.Bath(np.diag([0.5, -0.5]), corr)
-    par = oqupy.TempoParameters(dt=dt, epsrel=1e-5, dkmax=1)
+    par = oqupy.TempoParameters(dt=dt, epsrel=1e-8, dkmax=1)
     return bath, par
 
 
@@ -168,7 +171,7 @@ def run_public(case):
         d = oqupy.Tempo(system, bath, par, rho0, start).compute(e, progress_type="silent")
         if _check_axis(out, "tempo", d.times, start, dt, n):
             full = oqupy.Tempo(system, bath, par, rho0, start).compute(e_long, progress_type="silent")
-            out.check_close("tempo/aligned", np.array(d.states), np.array(full.states)[:n + 1], 1e-12)
+            out.check_close("tempo/aligned", np.array(d.states), np.array(full.states)[:n + 1], ALIGN_TOL * (n + 1))
     elif api == "mean-field":
         sp, sm = operators.sigma("+"), operators.sigma("-")
         sysf = oqupy.TimeDependentSystemWithField(lambda t, a: 0.5 * sz + 0.3 * (a * sp + np.conj(a) * sm))
@@ -177,9 +180,9 @@ def run_public(case):
         d = mk().compute(e, progress_type="silent")
         if _check_axis(out, "mean-field", d.times, start, dt, n):
             full = mk().compute(e_long, progress_type="silent")
-            out.check_close("mean-field/aligned-fields", np.array(d.fields), np.array(full.fields)[:n + 1], 1e-12)
+            out.check_close("mean-field/aligned-fields", np.array(d.fields), np.array(full.fields)[:n + 1], ALIGN_TOL * (n + 1))
             out.check_close("mean-field/aligned-states", np.array(d.system_dynamics[0].states),
-                            np.array(full.system_dynamics[0].states)[:n + 1], 1e-12)
+                            np.array(full.system_dynamics[0].states)[:n + 1], ALIGN_TOL * (n + 1))
     elif api == "pt+dynamics":
         pt = oqupy.pt_tempo_compute(bath, start, e, par, progress_type="silent")
         if len(pt) != n:
